@@ -113,6 +113,8 @@ func c10Exec(op string) string {
 		note := ""
 		if !deepEq(before, m) {
 			note = "error returned but the Map was modified"
+		} else if cnt != 0 {
+			note = fmt.Sprintf("ERRCOUNT an error was returned together with the count %d", cnt)
 		}
 		return "err " + updErrKind(err) + " | " + note
 	}
